@@ -112,12 +112,19 @@ def index_queue_rules(rep, rid):
         # symbolic evaluation of the loop body
         env = {exp: ("range", ("F", 0), ("L", 0))}
         body = []
+        # the local that carries the popped index: assigned in the body and mentioned by the value-returning return
+        rets0 = [e for _, _, e in fn.all_events() if e.get("k") == "return" and "nullopt" not in T(e.get("e"))]
+        assigned = set(P(e["lhs"]) for _, _, e in fn.all_events() if e.get("k") == "write" and e.get("op") == "=") | \
+            set(P(e["recv"]) for _, _, e in fn.all_events() if e.get("k") == "call" and e.get("op") == "=" and e.get("recv") is not None)
+        idxs = [v for v in assigned if v not in (exp, P(ev["args"][1])) and re.match(r"^\w+$", v) and rets0 and
+                all(re.search(r"(?<![\w.>])%s(?![\w(])" % re.escape(v), T(e["e"])) for e in rets0)]
+        IDX = idxs[0] if len(idxs) == 1 else "index"
         for blk_id in sorted(fn.blocks, reverse=True):
             blk = fn.blocks[blk_id]
             for e in blk.events:
-                if e.get("k") == "write" and e.get("op") == "=" and P(e["lhs"]) in ("index", P(ev["args"][1])):
+                if e.get("k") == "write" and e.get("op") == "=" and P(e["lhs"]) in (IDX, P(ev["args"][1])):
                     body.append((e, e["lhs"], e["rhs"]))
-                elif e.get("k") == "call" and e.get("op") == "=" and e.get("recv") is not None and P(e["recv"]) in ("index", P(ev["args"][1])):
+                elif e.get("k") == "call" and e.get("op") == "=" and e.get("recv") is not None and P(e["recv"]) in (IDX, P(ev["args"][1])):
                     body.append((e, e["recv"], e["args"][0]))
         des_name = P(ev["args"][1])
         for e, lhs, rhs in sorted(body, key=lambda x: int(loc_of(x[0]).rsplit(":", 1)[-1])):
@@ -125,9 +132,9 @@ def index_queue_rules(rep, rid):
             if v is None:
                 raise AnalysisBroken("%s: cannot evaluate %s" % (fn.qname, T(rhs)))
             env[P(lhs)] = v
-        des, idx = env.get(des_name), env.get("index")
+        des, idx = env.get(des_name), env.get(IDX)
         rets = [e for _, _, e in fn.all_events() if e.get("k") == "return" and "nullopt" not in T(e.get("e"))]
-        returns_index = rets and all("index" in T(e["e"]) for e in rets)
+        returns_index = rets and all(re.search(r"(?<![\w.>])%s(?![\w(])" % re.escape(IDX), T(e["e"])) for e in rets)
         want = (("range", ("F", 1), ("L", 0)), ("F", 0)) if name == "pop_left" else (("range", ("F", 0), ("L", -1)), ("L", -1))
         if (des, idx) == want and returns_index:
             rep.ok(rid, fn, "%s: installs %s and returns %s - exactly the index removed from the range" % (name, fmt(des), fmt(idx)))
